@@ -1,13 +1,11 @@
 (* C05 - Checkout never destroys user data that is not recoverable from the cache.
    Only statements; model in Model/ObjCheckout.v, proofs in Proofs/ObjCheckoutProofs*.v.
 
-   H is an arbitrary content hash with non-empty values; [order] (iteration order of the key set),
-   the tested link types, the prompt and the cache are arbitrary.  [stageable w] = the dry
-   re-staging of the workspace succeeds (no dangling symbolic link).  Deviation from DESIGN:
-   without that hypothesis the statement is FALSE for the code as it is (old = None after a
-   swallowed FileNotFoundError, every key becomes ADD and is linked over without _remove) - see
-   C05_no_loss_refuted_unstageable, reproduced on the implementation (signature
-   C05:unrecoverable-lost:old-tree-build-failed).
+   H is an arbitrary content hash; [order] (iteration order of the key set), the tested link
+   types, the prompt, the cache and the workspace (dangling links included) are arbitrary.
+   History: before /repo f4a117d the statement needed "the dry re-staging of the workspace
+   succeeds" and was refuted without it (old = None after a swallowed FileNotFoundError, every key
+   ADD, linked over without _remove); the refutation witness is now C05_former_witness_refuses.
    C05_refusal (PromptError p -> ws' p = ws p) is not proved: it needs the key order to be
    duplicate-free and a frame argument over the three change lists; it is checked by the oracle
    (C05:refused-but-touched) and the correspondence only. *)
@@ -18,26 +16,24 @@ Open Scope N_scope.
 
 (* every workspace file that checkout removed or replaced is accounted for: forced, or its
    content is the name of a cache object, or the prompt answered yes for that very path *)
-Theorem C05_no_loss : forall (H : bytes -> oid), (forall b, is_nil (H b) = false) ->
-  forall g c w tgt order k n,
-  stageable w = true -> kassoc k w = Some n ->
+Theorem C05_no_loss : forall (H : bytes -> oid) g c w tgt order k n,
+  kassoc k w = Some n ->
   kassoc k (r_ws (checkout H g c w tgt order)) = Some n \/
   g_force g = true \/ (exists co, oassoc (H (f_bytes n)) c = Some co) \/
   (exists f, g_prompt g = Some f /\ f k = true).
-Proof. intros H Hne g c w tgt order k n Hs Hk. exact (checkout_no_loss H Hne g c w tgt order k n Hs Hk). Qed.
+Proof. intros H g c w tgt order k n Hk. exact (checkout_no_loss H g c w tgt order k n Hk). Qed.
 Print Assumptions C05_no_loss.
 
 (* without force and without a prompt, only files whose bytes are recoverable are touched:
    the cache (intact, collision-free) holds exactly those bytes *)
-Theorem C05_only_recoverable_replaced : forall (H : bytes -> oid), (forall b, is_nil (H b) = false) ->
-  forall g c w tgt order k n,
+Theorem C05_only_recoverable_replaced : forall (H : bytes -> oid) g c w tgt order k n,
   (forall o co, oassoc o c = Some co -> H (c_bytes co) = o) -> (forall a b, H a = H b -> a = b) ->
-  stageable w = true -> g_force g = false -> g_prompt g = None ->
+  g_force g = false -> g_prompt g = None ->
   kassoc k w = Some n -> kassoc k (r_ws (checkout H g c w tgt order)) <> Some n ->
   exists co, oassoc (H (f_bytes n)) c = Some co /\ c_bytes co = f_bytes n.
 Proof.
-  intros H Hne g c w tgt order k n Hok Hinj Hs Hf Hp Hk Hch.
-  destruct (checkout_no_loss H Hne g c w tgt order k n Hs Hk) as [E|[E|[[co E]|[f [E _]]]]].
+  intros H g c w tgt order k n Hok Hinj Hf Hp Hk Hch.
+  destruct (checkout_no_loss H g c w tgt order k n Hk) as [E|[E|[[co E]|[f [E _]]]]].
   - contradiction.
   - congruence.
   - exists co. split; [exact E|]. apply Hinj. now apply Hok.
@@ -45,22 +41,21 @@ Proof.
 Qed.
 Print Assumptions C05_only_recoverable_replaced.
 
-(* the statement without [stageable] is refuted by the faithful model: a user file whose content is
-   not in the cache is overwritten by an unforced, promptless checkout *)
-Theorem C05_no_loss_refuted_unstageable :
-  exists (H : bytes -> oid) g c w tgt order k n,
-    (forall b, is_nil (H b) = false) /\ kassoc k w = Some n /\
-    ~ (kassoc k (r_ws (checkout H g c w tgt order)) = Some n \/ g_force g = true \/
-       (exists co, oassoc (H (f_bytes n)) c = Some co) \/ (exists f, g_prompt g = Some f /\ f k = true)).
-Proof.
-  exists (fun b => 1 :: b), (mk_cfg false false None [copy_name] [LCopy] false 9),
-         [([1; 65], mk_cobj [65] 1 1 1)],
-         [([[97]], mk_fnode [85] false None false 0 1 2); ([[98]], dangling_node [1; 66])],
-         [([[97]], [1; 65])], [[[97]]], [[97]], (mk_fnode [85] false None false 0 1 2).
-  split; [reflexivity|]. split; [reflexivity|].
-  intros [E|[E|[[co E]|[f [E _]]]]]; vm_compute in E; discriminate.
-Qed.
-Print Assumptions C05_no_loss_refuted_unstageable.
+(* the input that refuted the statement before f4a117d (a user file next to a dangling link, copy
+   type, no force, no prompt): the model of the repaired code refuses and leaves the file alone;
+   the same input with a cached old version is replaced (the hypotheses are satisfiable both ways) *)
+Theorem C05_former_witness_refuses :
+  let H := fun b : bytes => 1 :: b in
+  let g := mk_cfg false false None [copy_name] [LCopy] false 9 in
+  let c := [([1; 65], mk_cobj [65] 1 1 1)] in
+  let user := mk_fnode [85] false None false 0 1 2 in
+  let r := checkout H g c [([[97]], user); ([[98]], dangling_node [1; 66])] [([[97]], [1; 65])] [[[97]]] in
+  r_out r = OPrompt [[97]] /\ kassoc [[97]] (r_ws r) = Some user /\
+  let c2 := ([1; 85], mk_cobj [85] 2 1 1) :: c in
+  let r2 := checkout H g c2 [([[97]], user)] [([[97]], [1; 65])] [[[97]]] in
+  r_out r2 = ODone true /\ option_map f_bytes (kassoc [[97]] (r_ws r2)) = Some [65].
+Proof. vm_compute. repeat split; reflexivity. Qed.
+Print Assumptions C05_former_witness_refuses.
 
 (* link clean-up: only recorded paths, not listed as used, unmodified since recorded *)
 Theorem C05_links : forall f tab used p,
